@@ -288,6 +288,109 @@ theorem parserStep_repaired_local (g g' : String → Brace) (l : PLoc) (h : g ta
   | nil => rfl
   | cons op rest => cases op <;> simp [h]
 
+/-! ## C13 — instance ids from a shared counter -/
+
+structure ILoc where
+  todo : Nat                  -- runtime components this parse still has to create
+  tmp  : Option Nat := none   -- non-atomic variant: the counter value read by `counter++`
+  ids  : List Nat := []       -- instance ids of the components created so far
+  deriving DecidableEq, Repr, Inhabited
+
+def counterCell : String := "instanceCounter"
+
+/-- One step of a parse creating runtime components. `atomic = true`: `atomic.AddUint64` — the
+    counter is incremented and the new value taken in one step. `atomic = false`: `counter++`
+    followed by a read — a read step and a write step. -/
+def idStep (atomic : Bool) (g : String → Nat) (l : ILoc) : (String → Nat) × ILoc :=
+  if l.todo = 0 then (g, l)
+  else if atomic then
+    (fun x => if x = counterCell then g counterCell + 1 else g x,
+     { l with todo := l.todo - 1, ids := (g counterCell + 1) :: l.ids })
+  else
+    match l.tmp with
+    | none => (g, { l with tmp := some (g counterCell) })
+    | some v =>
+      (fun x => if x = counterCell then v + 1 else g x,
+       { l with todo := l.todo - 1, tmp := none, ids := (v + 1) :: l.ids })
+
+def idSys (atomic : Bool) : Sys String Nat ILoc := ⟨fun _ => idStep atomic⟩
+
+/-- all ids handed out so far are at most the counter, every thread's ids are distinct, and
+    different threads hold disjoint ids -/
+def IdsInv (s : State String Nat ILoc) : Prop :=
+  (∀ t a, a ∈ (s.locals t).ids → a ≤ s.shared counterCell) ∧
+  (∀ t, (s.locals t).ids.Nodup) ∧
+  (∀ t t' a, t ≠ t' → a ∈ (s.locals t).ids → a ∉ (s.locals t').ids)
+
+theorem idsInv_step (s : State String Nat ILoc) (u : Nat) (h : IdsInv s) :
+    IdsInv (run (idSys true) s [u]) := by
+  obtain ⟨hb, hn, hd⟩ := h
+  simp only [run, idSys, idStep]
+  by_cases h0 : (s.locals u).todo = 0
+  · simp only [h0, if_true]
+    refine ⟨?_, ?_, ?_⟩
+    · intro t a ha
+      by_cases htu : t = u
+      · subst htu; simp only [setLocal, if_true] at ha; exact hb t a ha
+      · simp only [setLocal, if_neg htu] at ha; exact hb t a ha
+    · intro t
+      by_cases htu : t = u
+      · subst htu; simp only [setLocal, if_true]; exact hn t
+      · simp only [setLocal, if_neg htu]; exact hn t
+    · intro t t' a htt ha
+      have e : ∀ x, (setLocal s.locals u (s.locals u) x) = s.locals x := by
+        intro x; by_cases hx : x = u
+        · subst hx; simp [setLocal]
+        · simp [setLocal, hx]
+      simp only [e] at ha ⊢
+      exact hd t t' a htt ha
+  · simp only [h0, if_false, if_true]
+    refine ⟨?_, ?_, ?_⟩
+    · intro t a ha
+      simp only [if_true]
+      by_cases htu : t = u
+      · subst htu
+        simp only [setLocal, if_true, List.mem_cons] at ha
+        rcases ha with rfl | ha
+        · exact Nat.le_refl _
+        · exact Nat.le_succ_of_le (hb t a ha)
+      · simp only [setLocal, if_neg htu] at ha
+        exact Nat.le_succ_of_le (hb t a ha)
+    · intro t
+      by_cases htu : t = u
+      · subst htu
+        simp only [setLocal, if_true, List.nodup_cons]
+        refine ⟨fun hm => ?_, hn t⟩
+        have := hb t _ hm
+        omega
+      · simp only [setLocal, if_neg htu]; exact hn t
+    · intro t t' a htt ha
+      by_cases htu : t = u
+      · subst htu
+        have ht' : ¬ t' = t := fun e => htt e.symm
+        simp only [setLocal, if_true, List.mem_cons] at ha
+        simp only [setLocal, if_neg ht']
+        rcases ha with rfl | ha
+        · intro hm; have := hb t' _ hm; omega
+        · exact hd t t' a htt ha
+      · simp only [setLocal, if_neg htu] at ha
+        by_cases ht'u : t' = u
+        · subst ht'u
+          simp only [setLocal, if_true, List.mem_cons, not_or]
+          refine ⟨fun e => ?_, hd t t' a htt ha⟩
+          have := hb t a ha
+          omega
+        · simp only [setLocal, if_neg ht'u]
+          exact hd t t' a htt ha
+
+theorem idsInv_run (sched : List Nat) : ∀ s, IdsInv s → IdsInv (run (idSys true) s sched) := by
+  induction sched with
+  | nil => intro s h; simpa [run] using h
+  | cons u sched ih =>
+    intro s h
+    have := ih _ (idsInv_step s u h)
+    simpa [run] using this
+
 /-! ## C11 — the action closure of a sink -/
 
 /-- what an invocation does is a function of its own event: `none` = success,
